@@ -34,7 +34,7 @@ let cmd_span c =
   let itrees = [ itree0; itree1 ] in
   let nf = List.length pes in
   (* the model's own tables, computed once *)
-  let mtab = (match find_all_plaquettes l with
+  let mtab = (if nf > 80 then (out "mp" "SKIP"; None) else match find_all_plaquettes l with
       | None -> out "mp" "ERR"; None
       | Some ps -> out "mp" (string_of_int (List.length ps));
         Some (edges_plaquettes l ps, List.map (fun p -> p.p_edges) ps)) in
@@ -55,6 +55,7 @@ let cmd_span c =
        | Some t -> out ("ftree" ^ sfx) (s_list s_onat t));
       (match mtab with
        | None -> out ("mftree" ^ sfx) "ERR"
+       | Some (mep, mpes) when nf > 80 -> out ("mftree" ^ sfx) "SKIP"
        | Some (mep, mpes) ->
          (match plaquette_spanning_tree (order_front choice) mep mpes with
           | None -> out ("mftree" ^ sfx) "ERR"
